@@ -334,6 +334,20 @@ def _relocate(nodes, at):
                 x.end_col_offset = getattr(at, "end_col_offset", 0)
 
 
+def _as_expression(body):
+    """`return E`  |  `if T: return A` ... `return B`  ->  one expression (conditional expressions), else None"""
+    if len(body) == 1 and isinstance(body[0], ast.Return) and body[0].value is not None:
+        return body[0].value
+    if body and isinstance(body[0], ast.If) and len(body[0].body) == 1 and isinstance(body[0].body[0], ast.Return) and body[0].body[0].value is not None:
+        rest = body[0].orelse if body[0].orelse else body[1:]
+        if body[0].orelse and body[1:]:
+            return None
+        other = _as_expression(list(rest))
+        if other is not None:
+            return ast.IfExp(test=body[0].test, body=body[0].body[0].value, orelse=other)
+    return None
+
+
 _hcache: dict = {}
 
 
@@ -426,11 +440,12 @@ def with_helpers(ctx, fi, exclude=(), only_private=True, depth=3, inline_locals=
             if not eligible(h):
                 return c
             hb = _body_no_doc(h.node)
-            if len(hb) == 1 and isinstance(hb[0], ast.Return) and hb[0].value is not None:
+            value = _as_expression(hb)
+            if value is not None:
                 m = _bind(h, c)
                 if m is None:
                     return c
-                e = _Subst(m, {}).visit(copy.deepcopy(hb[0].value))
+                e = _Subst(m, {}).visit(copy.deepcopy(value))
                 _relocate([e], c)
                 return ExprExpand(self.d - 1).visit(e)
             return c
